@@ -48,6 +48,10 @@ pub struct SynthSpec {
     /// starts `delta` bytes before the given offset boundary (a reader's buffer / scan-chunk edge)
     #[serde(default)]
     pub straddle: Option<(u32, usize, usize)>,
+    /// white-space bytes between `/First` and the first compressed object, so that the offsets in
+    /// an object stream's header start above zero (legal; most writers start at 0)
+    #[serde(default)]
+    pub objstm_gap: usize,
 }
 
 impl SynthSpec {
@@ -201,7 +205,7 @@ pub fn build(spec: &SynthSpec) -> Built {
             next_num += 1;
             containers.insert(stm_num, ri);
             let mut head = String::new();
-            let mut bodies: Vec<u8> = vec![];
+            let mut bodies: Vec<u8> = vec![b'\n'; spec.objstm_gap];
             for (n, b) in &packed {
                 head.push_str(&format!("{} {} ", n, bodies.len()));
                 bodies.extend_from_slice(b);
@@ -415,5 +419,6 @@ pub fn gen_spec(r: &mut Rng, o: &GenOpts) -> SynthSpec {
     } else {
         None
     };
-    SynthSpec { revisions, pad, perm, straddle }
+    let objstm_gap = if r.chance(1, 3) { 1 + r.usize_below(7) } else { 0 };
+    SynthSpec { revisions, pad, perm, straddle, objstm_gap }
 }
